@@ -430,9 +430,12 @@ def verdictWire (args : List String) (impl : String) : String :=
           else "ok"
       | "err" :: e :: _ =>
         if (decodes k b).isSome then s!"bad:{propOfK k}:read"
-        else if k == .msg && b.length ≥ 4 && (rd32 b / 65536 != 0x8001) != (e == "pe4") then "bad:C12:version"
-        else if !(causeBuf k b).contains e then "bad:C17:kind"
-        else "ok"
+        else
+          -- every property the error value breaks: strict version (C12), type id named after the cause (C17)
+          let tags : List String :=
+            (if k == .msg && b.length ≥ 4 && (rd32 b / 65536 != 0x8001) != (e == "pe4") then ["C12:version"] else []) ++
+            (if !(causeBuf k b).contains e then ["C17:kind"] else [])
+          if tags.isEmpty then "ok" else "bad:" ++ ",".intercalate tags
       | _ => "bad:protocol"
     | _, _ => "na"
   | ["r-stream", k, h, src] =>
@@ -458,12 +461,16 @@ def verdictWire (args : List String) (impl : String) : String :=
           else "ok"
       | "err" :: e :: _ =>
         if (decodes k b).isSome && live b src then s!"bad:{propOfK k}:stream-read"
-        else if badVer && e != "pe4" then "bad:C12:version"
-        else if goodVer && e == "pe4" then "bad:C12:version"
+        else if badVer && e != "pe4" then "bad:C12:version,C17:kind"
+        else if goodVer && e == "pe4" then "bad:C12:version,C17:kind"
         else if e.startsWith "pe0(" then (if wrapAllowed src e then "ok" else "bad:C17:stream-provenance")
         else if e == "pe2" && (k == .binary || k == .str || k == .msg) then "ok"
         else if e == "pe4" && k == .msg then "ok"
-        else "bad:C17:stream-wrap"
+        -- not a wrapped error at all: when the source's own error is an injected one it is no longer
+        -- matchable with errors.Is (provenance lost); otherwise a bare / foreign error value
+        else match firstErr (scriptOf src) with
+          | .src _ => "bad:C17:stream-provenance"
+          | _ => "bad:C17:stream-wrap"
       | "PANIC" :: _ =>
         if (decodes k b).isSome && live b src then s!"bad:{propOfK k}:stream-read" else "na"
       | _ => "bad:protocol"
@@ -495,7 +502,16 @@ def verdictMsg (args : List String) (impl : String) : String :=
     | "PANIC" :: _ => "bad:C03:panic"
     | "OOB" :: _ => "bad:C03:oob"
     | "err" :: e :: _ =>
-      if e == "pe1" || e == "pe2" || e == "pe4" || e == "pe6" then "ok" else "bad:C17:kind"
+      -- a failure of the header is named after its cause; body failures: any of the four grammar ids
+      (match args with
+       | [_, h] =>
+         match parseHex h with
+         | some b =>
+           if b.length < 4 then (if e == "pe1" then "ok" else "bad:C17:kind")
+           else if rd32 b / 65536 != 0x8001 then (if e == "pe4" then "ok" else "bad:C12:version,C17:kind")
+           else if e == "pe1" || e == "pe2" || e == "pe4" || e == "pe6" then "ok" else "bad:C17:kind"
+         | none => "na"
+       | _ => "na")
     | _ => "ok"
   | _ => "na"
 
